@@ -84,4 +84,4 @@ if n1:
         t+="Nothing: all stored changes are silent.\n"
     put('benign',t+"\n")
 open(V+'/DESIGN.md','w').write(s)
-print('DESIGN.md regenerated:',n,'seeded,',first,'first pass,',now,'now')
+print('DESIGN.md regenerated:',n,'seeded,',now,'detected now')
